@@ -3,16 +3,16 @@
    TfmScore / TfmDist / TfmMain / TfmRun / TfmLink / TfmCheck / TfmRefute), statement
    pins and non-vacuity examples.  Setting as in C12.v ([matrix_ok], [Ptail]).
 
-   The full property ("every refinement step returns a threshold t with
-   P(S >= t+d) <= p and, for the largest attainable u < t-d, P(S >= u-d) >= p") is
-   FALSE of the code: the window re-centring of ScoresIterator::next can lose the
-   answer ([C13_window_refuted], finding F13).  What is proved is the property for
-   every step whose window is adequate ([io_total_lt = false] and the last table has
-   more than one entry -- predicates the model computes for any replay), that the
-   first step always has an adequate window, and the refutation. *)
+   History: before /repo 6b0495b the window re-centring of ScoresIterator::next could
+   lose the answer (finding F13, former theorem C13_window_refuted; its witnesses are now
+   must-pass corpus cases).  With the repaired re-centring (window from
+   10 (alpha_e - w) - 9 M to 10 (alpha + w) + 9 M) "the window is adequate" ([io_total_lt =
+   false] and the last table has more than one entry) is an invariant of the iteration,
+   so the property holds for every step of approximate_score ([C13_approximate_score_bounds]);
+   the step-level theorems are stated for an arbitrary adequate window. *)
 From Coq Require Import ZArith QArith Qround List Bool Lia Lqa Sorted Permutation.
 From LMBase Require Import Res ListX.
-From LMTfm Require Import TfmNum TfmModel TfmSpec TfmProofs TfmScore TfmDist TfmPerm TfmMain TfmRun TfmTotal TfmLink TfmClause1 TfmNoPanic TfmCheck TfmRefute.
+From LMTfm Require Import TfmNum TfmModel TfmSpec TfmProofs TfmScore TfmDist TfmPerm TfmMain TfmRun TfmTotal TfmLink TfmClause1 TfmAdequate TfmCheck.
 Import ListNotations.
 Open Scope Q_scope.
 
@@ -37,7 +37,7 @@ Theorem C13_dist_exact : forall (G : geom) (bg : list Q) mn mx rowsq n,
   (2 <= length (g_int G))%nat ->
   Forall (fun r => length r = n /\ forall c, In c r -> (0 <= c)%Z) (g_int G) ->
   g_maxr G = map zmax_of (g_int G) ->
-  bg_unit n bg -> (n <= length bg)%nat -> (mn <= mx + 1)%Z ->
+  bg_mass n bg -> (n <= length bg)%nat -> (mn <= mx + 1)%Z ->
   dist_exact (irows (g_int G) bg) mn mx (last rowsq []).
 Proof. exact distribution_exact. Qed.
 
@@ -124,57 +124,54 @@ Theorem C13_lookup_score_panic_31_iff : forall G bg p mn mx rowsq,
   (lookup_score NumQ G bg p mn mx = Panic 31 <-> first_exitQ p (last rowsq [])).
 Proof. exact lookup_score_panic_31_iff. Qed.
 
-(* In exact arithmetic that panic cannot happen: a word whose integer score exceeds the
-   re-centred window at granularity g/10 had an integer score >= alpha at granularity g
-   (I' <= 10 I + 9 + 10 error_max), and the mass of those words is <= p unless the step
-   exhausted its window (then it reports convergence and no further step follows).  So
-   approximate_score never reaches site 31 -- the panic observed on the implementation
-   (known finding F26) is an artefact of the binary64 summation order. *)
-Theorem C13_step_no_panic31 : forall rows perm bg K p g win it,
+(* Adequacy is preserved by the (repaired) re-centring: an integer score I at granularity g
+   becomes a score within 9 M of 10 I at granularity g/10, so the window from
+   10 (alpha_e - w) - 9 M to 10 (alpha + w) + 9 M contains the images of alpha_e (mass >= p
+   from there upwards, and an attainable score) and leaves at most mass p above it. *)
+Theorem C13_adequacy_preserved : forall rows perm bg K p g win it it',
   matrix_ok K rows bg -> (2 <= length rows)%nat -> length perm = length rows ->
   0 < g -> 0 < p -> (fst win <= snd win + 1)%Z ->
   sc_next NumQ rows perm bg p g win = Ok it ->
-  io_conv it = false ->
-  sc_next NumQ rows perm bg p (g / 10) (io_win it) <> Panic 31.
-Proof. exact sc_next_no_panic31. Qed.
+  adequate it ->
+  sc_next NumQ rows perm bg p (g / 10) (io_win it) = Ok it' ->
+  adequate it'.
+Proof. exact sc_next_adequate_next. Qed.
 
+(* THE PROPERTY for approximate_score(p), without any condition on the windows: every
+   Iteration (granularity 1/10, 1/100, ...) returns a threshold t with P(S >= t+d) <= p and
+   P(S >= u-d) >= p for every attainable u < t-d (d = (M+2) g), for any matrix of width
+   M >= 2, any background without wildcard mass and any p in (0,1]. *)
+Theorem C13_approximate_score_bounds : forall steps rows perm bg K p win it,
+  matrix_ok K rows bg -> (2 <= length rows)%nat -> Permutation perm (seq 0 (length rows)) ->
+  0 < p -> p <= 1 ->
+  score_window0 NumQ rows perm = Ok win ->
+  In (Ok it) (sc_run NumQ steps rows perm bg p (1 # 10) win) ->
+  let M := inject_Z (Z.of_nat (length rows)) in
+  let gi := io_gran it in
+  let t := io_score it in
+  let d := (M + 2) * gi in
+  0 < gi /\ gi <= 1 # 10 /\
+  Ptail rows bg (t + d) <= p /\
+  (forall l, attain l (srows (sym_cells rows) bg) -> Qsum l < t - d -> p <= Ptail rows bg (Qsum l - d)).
+Proof. exact approximate_score_bounds. Qed.
+
+(* ... and the iteration never reaches the out-of-bounds `keys[riter + 1]` (site 31; the
+   panic formerly observed on the implementation, finding F26, came from a window that
+   the old re-centring placed too low for the binary64 sums) *)
 Theorem C13_approximate_score_no_panic31 : forall steps rows perm bg K p win,
   matrix_ok K rows bg -> (2 <= length rows)%nat -> length perm = length rows ->
-  0 < p ->
+  0 < p -> p <= 1 ->
   score_window0 NumQ rows perm = Ok win ->
   ~ In (Panic 31) (sc_run NumQ steps rows perm bg p (1 # 10) win).
 Proof. exact approximate_score_no_panic31. Qed.
 
 (* re-centred windows are never inverted (so only their position can be wrong) *)
 Theorem C13_next_window_ordered : forall rows perm bg K p g win it,
-  matrix_ok K rows bg -> length perm = length rows -> 0 < g ->
+  matrix_ok K rows bg -> (2 <= length rows)%nat -> length perm = length rows -> 0 < g ->
+  (fst win <= snd win + 1)%Z ->
   sc_next NumQ rows perm bg p g win = Ok it ->
   (fst (io_win it) <= snd (io_win it))%Z.
 Proof. exact sc_next_window. Qed.
-
-(* The property does not hold for every step: refutation by a concrete matrix (M = 3,
-   dyadic entries, uniform background, p = 5/128; see TfmRefute.v for the description).
-   The witness meets every precondition, the second refinement step runs through its
-   whole re-centred window without reaching p ([io_total_lt]) and returns the threshold
-   2.62 ("converged") although the attainable score 2.5 < 2.62 - d has
-   P(S >= 2.5 - d) = 1/32 < p.  The same input is in corpus/C13 and fails on the
-   implementation (known finding F13). *)
-Theorem C13_window_refuted :
-  matrix_ok 5 w_rows w_bg /\ (2 <= length w_rows)%nat /\
-  Permutation w_perm (seq 0 (length w_rows)) /\ range_sorted w_rows w_perm /\
-  0 < w_p < 1 /\
-  score_window0 NumQ w_rows w_perm = Ok w_win0 /\
-  exists it : @iter_out Q,
-    nth_error (sc_run NumQ w_steps w_rows w_perm w_bg w_p (1#10) w_win0) 1 = Some (Ok it) /\
-    io_total_lt it = true /\
-    (1 < length (last (io_rows it) []))%nat /\
-    let M := inject_Z (Z.of_nat (length w_rows)) in
-    let cs := perm_cells w_rows w_perm in
-    let d := (M + 2) * io_gran it in
-    attain w_word (srows cs w_bg) /\
-    Qsum w_word < io_score it - d /\
-    tailS cs w_bg (Qsum w_word - d) < w_p.
-Proof. exact TfmRefute.C13_window_refuted. Qed.
 
 (* the window predicates attached by the check to every observation ([ls_flags] on the
    table the implementation reports) are those of the theorems, for every instance of
@@ -214,6 +211,19 @@ Check C13_initial_window_ok : forall rows perm bg K p win it,
   sc_next NumQ rows perm bg p (1 # 10) win = Ok it ->
   (fst win <= snd win + 1)%Z /\ io_total_lt it = false /\ (1 < length (last (io_rows it) []))%nat.
 
+Check C13_approximate_score_bounds : forall steps rows perm bg K p win it,
+  matrix_ok K rows bg -> (2 <= length rows)%nat -> Permutation perm (seq 0 (length rows)) ->
+  0 < p -> p <= 1 ->
+  score_window0 NumQ rows perm = Ok win ->
+  In (Ok it) (sc_run NumQ steps rows perm bg p (1 # 10) win) ->
+  let M := inject_Z (Z.of_nat (length rows)) in
+  let gi := io_gran it in
+  let t := io_score it in
+  let d := (M + 2) * gi in
+  0 < gi /\ gi <= 1 # 10 /\
+  Ptail rows bg (t + d) <= p /\
+  (forall l, attain l (srows (sym_cells rows) bg) -> Qsum l < t - d -> p <= Ptail rows bg (Qsum l - d)).
+
 (* ---------- non-vacuity ---------- *)
 Definition ex_rows : list (list Q) :=
   [[1; -1; 1 # 3; -2; -100]; [1 # 2; -(1 # 3); 0; -1; -100]; [1 # 4; 0; 1 # 7; -(1 # 4); -100]].
@@ -227,7 +237,7 @@ Example C13_nonvacuous_hyps :
 Proof.
   split; [|apply Permutation_refl].
   unfold matrix_ok. split; [lia|]. split; [repeat constructor|]. split; [reflexivity|].
-  split; [|split; [reflexivity|repeat constructor; cbn; discriminate]].
+  split; [|split; reflexivity].
   intros b Hb. cbn in Hb. repeat (destruct Hb as [<-|Hb]; [discriminate|]). destruct Hb.
 Qed.
 
